@@ -329,9 +329,23 @@ impl RunOut {
 }
 
 pub struct RunIn<'a> {
+    /// run index within the batch (u64::MAX in replay mode)
+    pub run: u64,
     pub run_seed: u64,
     pub bytes: &'a [u8],
     pub verbose: bool,
+    /// also perform the checks that are too expensive for every run of a batch (set whenever a
+    /// violation candidate is being reproduced, and in replay mode)
+    pub deep: bool,
+}
+
+/// What a post-batch pass (e.g. C38's cross-process comparison of sampled runs) reports.
+#[derive(Default)]
+pub struct PostOut {
+    /// (class, run index, detail): handled like violations found during the batch
+    pub viols: Vec<(String, u64, String)>,
+    pub probes: Vec<(&'static str, u64)>,
+    pub harness_error: Option<String>,
 }
 
 pub struct Scenario<'a> {
@@ -387,7 +401,7 @@ fn minimise(sc: &Scenario<'_>, seed: u64, bytes: Vec<u8>, class: &str, budget: u
             return false;
         }
         *used += 1;
-        let o = run_guarded(sc, &RunIn { run_seed: seed, bytes: cand, verbose: false });
+        let o = run_guarded(sc, &RunIn { run: u64::MAX, run_seed: seed, bytes: cand, verbose: false, deep: true });
         o.violation.as_ref().map(|v| v.0.as_str()) == Some(class)
     };
     let mut b = bytes;
@@ -435,7 +449,7 @@ pub fn repo_head() -> String {
 
 /// Entry point of an end-to-end property test. Never panics for a *violation* (that is data in
 /// the result JSON); panics (=> the Rust test fails => the wrapper exits 2) only on harness errors.
-pub fn drive(cfg: &Cfg, meta: &PropMeta, scenarios: Vec<Scenario<'_>>) {
+pub fn drive(cfg: &Cfg, meta: &PropMeta, scenarios: Vec<Scenario<'_>>, post: Option<&dyn Fn() -> PostOut>) {
     install_quiet_panic_hook();
     assert_eq!(cfg.prop, meta.id);
     if let Some(path) = &cfg.replay {
@@ -450,7 +464,7 @@ pub fn drive(cfg: &Cfg, meta: &PropMeta, scenarios: Vec<Scenario<'_>>) {
             let sc = &scenarios[si];
             let seed = run_seed(cfg.seed, sc.name, r);
             let bytes = bytes_for(seed, EFFECTIVE_BYTES);
-            let o = run_guarded(sc, &RunIn { run_seed: seed, bytes: &bytes, verbose: false });
+            let o = run_guarded(sc, &RunIn { run: r, run_seed: seed, bytes: &bytes, verbose: false, deep: false });
             if let Some(e) = o.harness_error {
                 panic!("HARNESS: {e}");
             }
@@ -480,15 +494,15 @@ pub fn drive(cfg: &Cfg, meta: &PropMeta, scenarios: Vec<Scenario<'_>>) {
         let sc = &scenarios[si];
         let seed = run_seed(cfg.seed, sc.name, r);
         let bytes = bytes_for(seed, EFFECTIVE_BYTES);
-        let o = run_guarded(sc, &RunIn { run_seed: seed, bytes: &bytes, verbose: false });
+        let o = run_guarded(sc, &RunIn { run: r, run_seed: seed, bytes: &bytes, verbose: false, deep: false });
         if let Some(e) = &o.harness_error {
             panic!("HARNESS: run {r} scenario {}: {e}", sc.name);
         }
         // in-process determinism self-test on the first runs of every shard
         if selftest_runs < selftest_n {
             selftest_runs += 1;
-            let o2 = run_guarded(sc, &RunIn { run_seed: seed, bytes: &bytes, verbose: false });
-            if o2.log_hash != o.log_hash && meta.id != "C38" {
+            let o2 = run_guarded(sc, &RunIn { run: u64::MAX, run_seed: seed, bytes: &bytes, verbose: false, deep: false });
+            if o2.log_hash != o.log_hash {
                 panic!("HARNESS: determinism self-test failed: run {r} scenario {} gave two different event logs from the same bytes", sc.name);
             }
         }
@@ -514,6 +528,19 @@ pub fn drive(cfg: &Cfg, meta: &PropMeta, scenarios: Vec<Scenario<'_>>) {
         }
         r += shard_k;
     }
+    if let Some(post) = post {
+        let po = post();
+        if let Some(e) = po.harness_error {
+            panic!("HARNESS: post-batch pass: {e}");
+        }
+        for (p, n) in po.probes {
+            *probes.entry(p).or_default() += n;
+        }
+        for (class, r, detail) in po.viols {
+            let si = scenario_for(&scenarios, r);
+            viols.entry(class).or_insert((r, si, detail));
+        }
+    }
     let batch_wall = t0.elapsed().as_secs_f64();
 
     // violations: reproduce in-process from the bytes, minimise, write the replay file
@@ -522,12 +549,14 @@ pub fn drive(cfg: &Cfg, meta: &PropMeta, scenarios: Vec<Scenario<'_>>) {
         let sc = &scenarios[*si];
         let seed = run_seed(cfg.seed, sc.name, *r);
         let bytes = bytes_for(seed, EFFECTIVE_BYTES);
-        let again = run_guarded(sc, &RunIn { run_seed: seed, bytes: &bytes, verbose: false });
+        let again = run_guarded(sc, &RunIn { run: *r, run_seed: seed, bytes: &bytes, verbose: false, deep: true });
         if again.violation.as_ref().map(|v| &v.0) != Some(class) {
             panic!("HARNESS: violation {class} of run {r} did not reproduce in-process from its bytes");
         }
-        let min = minimise(sc, seed, bytes.clone(), class, 400);
-        let fin = run_guarded(sc, &RunIn { run_seed: seed, bytes: &min, verbose: true });
+        // classes whose check needs a child process are too expensive to minimise
+        let budget = if class.contains("across_processes") { 0 } else { 400 };
+        let min = minimise(sc, seed, bytes.clone(), class, budget);
+        let fin = run_guarded(sc, &RunIn { run: *r, run_seed: seed, bytes: &min, verbose: true, deep: true });
         let (fclass, fdetail) = fin.violation.clone().unwrap_or((class.clone(), detail.clone()));
         let dir = verif_dir().join("replays");
         let _ = std::fs::create_dir_all(&dir);
@@ -552,7 +581,7 @@ pub fn drive(cfg: &Cfg, meta: &PropMeta, scenarios: Vec<Scenario<'_>>) {
             let sc = &scenarios[si];
             let seed = run_seed(cfg.seed, sc.name, r);
             let bytes = bytes_for(seed, EFFECTIVE_BYTES);
-            let o = run_guarded(sc, &RunIn { run_seed: seed, bytes: &bytes, verbose: true });
+            let o = run_guarded(sc, &RunIn { run: r, run_seed: seed, bytes: &bytes, verbose: true, deep: false });
             samples.push(json!({
                 "run": r, "scenario": sc.name, "run_seed": seed,
                 "decision_bytes_prefix_hex": hex(&bytes[..32]),
@@ -595,7 +624,7 @@ fn replay(meta: &PropMeta, scenarios: &[Scenario<'_>], path: &PathBuf) {
     };
     let bytes = unhex(v["bytes_hex"].as_str().unwrap_or(""));
     let seed = v["run_seed"].as_u64().unwrap_or(0);
-    let o = run_guarded(sc, &RunIn { run_seed: seed, bytes: &bytes, verbose: true });
+    let o = run_guarded(sc, &RunIn { run: u64::MAX, run_seed: seed, bytes: &bytes, verbose: true, deep: true });
     if let Some(e) = o.harness_error {
         panic!("HARNESS: {e}");
     }
